@@ -157,7 +157,7 @@ class Impl:
     def _guard(self, fn):
         try:
             fn()
-        except Exception as exc:  # canonicalise by class
+        except (Exception, asyncio.CancelledError) as exc:  # canonicalise by class (CancelledError is a BaseException)
             self.log.append(("R", exc_name(exc)))
 
     def op(self, o):
